@@ -28,7 +28,15 @@ def gVecL : AGrammar :=
     prods := [ ⟨"S", none, 2, [kw "KA", ns "L"]⟩,
                ⟨"L", none, 2, [ns "L", cs "Num"]⟩, ⟨"L", none, 1, [cs "Num"]⟩ ] }
 
-def typesOf (g : AGrammar) : List SymType := (symbolTypes g).getD []
+def typesOf (fx : Fixes) (g : AGrammar) : List SymType := (symbolTypes fx g).getD []
+
+/-- types / shapes / skeleton of /repo as it is now, and of the code before the repairs -/
+abbrev typesNow (g : AGrammar) : List SymType := typesOf .repo g
+abbrev typesWas (g : AGrammar) : List SymType := typesOf .asWas g
+abbrev shapesNow (g : AGrammar) : Shapes := shapesFor .repo g (typesNow g)
+abbrev shapesWas (g : AGrammar) : Shapes := shapesFor .asWas g (typesWas g)
+abbrev skelNow (g : AGrammar) : Skel := skeleton .repo g (typesNow g)
+abbrev skelWas (g : AGrammar) : Skel := skeleton .asWas g (typesWas g)
 
 /-- parse tree of `KA 1 2 a b` -/
 def tVec : PTree :=
@@ -93,5 +101,22 @@ def gVecAlt : AGrammar :=
     prods := [ ⟨"S", none, 2, [kw "KA", ns "V"]⟩,
                ⟨"V", none, 2, [ns "V", cs "Num"]⟩, ⟨"V", none, 1, [ns "W"]⟩, ⟨"V", none, 1, [cs "Num"]⟩,
                ⟨"W", none, 2, [kw "KB", ns "W"]⟩, ⟨"W", none, 1, [cs "Id"]⟩ ] }
+
+/-- `S: C Num; C: Id Id | KA;` with `builder_loc_info` — the rule name `C` met the header alias `Context as C` -/
+def gRuleC : AGrammar :=
+  { loc := true, rn := false, start := "S",
+    terms := [⟨"KA", false, true⟩, ⟨"Num", true, true⟩, ⟨"Id", true, true⟩],
+    nts := [⟨"S", true, false⟩, ⟨"C", true, false⟩],
+    prods := [ ⟨"S", none, 2, [ns "C", cs "Num"]⟩,
+               ⟨"C", none, 2, [cs "Id", cs "Id"]⟩, ⟨"C", none, 1, [kw "KA"]⟩ ] }
+
+/-- `S: KA B; B: y=Num x=A; A: B | EMPTY;` under GLR: `type A = Option<Box<B>>`, `A` right-nulled in `B` -/
+def gOptBox : AGrammar :=
+  { loc := false, rn := true, start := "S",
+    terms := [⟨"KA", false, true⟩, ⟨"Num", true, true⟩],
+    nts := [⟨"S", true, false⟩, ⟨"B", true, false⟩, ⟨"A", true, false⟩],
+    prods := [ ⟨"S", none, 2, [kw "KA", ns "B"]⟩,
+               ⟨"B", none, 1, [cs "Num" (some "y"), ns "A" (some "x")]⟩,
+               ⟨"A", none, 1, [ns "B"]⟩, ⟨"A", none, 0, []⟩ ] }
 
 end Rustemo.Ast
